@@ -186,7 +186,9 @@ func checkC12(w *core.W) {
 		if hi > len(strs) {
 			hi = len(strs)
 		}
-		w.Case(func() string { return "repr-strings|" + strClass(strs[lo]) + " ## strings #" + strconv.Itoa(lo) + ".." + strconv.Itoa(hi) }, func() {
+		w.Case(func() string {
+			return "repr-strings|" + strClass(strs[lo]) + " ## strings #" + strconv.Itoa(lo) + ".." + strconv.Itoa(hi)
+		}, func() {
 			for _, rs := range strs[lo:hi] {
 				q := strconv.QuoteToASCII(string(rs))
 				str := rel.NewString(rs)
@@ -236,6 +238,6 @@ func allBytes(rs []rune) bool {
 
 var C12 = core.Check{
 	ID: "C12", Level: "exploration", Fn: checkC12, Rounds: func(string) int { return 2 }, Watchdog: 60 * time.Second,
-	Rule: "values = every state of the reachable-representation space (every representation: offsets, holes, multi-valued dicts, union sets, relations, nested) alone and wrapped as set member, attribute value, array item, dict value and dict key; every string of length <=2 over a 51-rune alphabet (all classes: C0 controls, the three quotes, backslash, $ { } :, hex digits that matter after an escape, DEL, Latin-1, BMP specials, astral) and every string of length 3 over the 10 runes that interact with quoting and escaping (thorough: also length 3 over 24 runes) as string, offset string, attribute name, relation heading, bytes and offset bytes; 18 numbers with short decimal forms. Each value is printed with fu.Repr, the text compiled and evaluated, and the result must denote the same value and be = to the original both ways round (wrapped / offset variants are only judged when the plain value round-trips). non-trivial = every round trip",
+	Rule:   "values = every state of the reachable-representation space (every representation: offsets, holes, multi-valued dicts, union sets, relations, nested) alone and wrapped as set member, attribute value, array item, dict value and dict key; every string of length <=2 over a 51-rune alphabet (all classes: C0 controls, the three quotes, backslash, $ { } :, hex digits that matter after an escape, DEL, Latin-1, BMP specials, astral) and every string of length 3 over the 10 runes that interact with quoting and escaping (thorough: also length 3 over 24 runes) as string, offset string, attribute name, relation heading, bytes and offset bytes; 18 numbers with short decimal forms. Each value is printed with fu.Repr, the text compiled and evaluated, and the result must denote the same value and be = to the original both ways round (wrapped / offset variants are only judged when the plain value round-trips). non-trivial = every round trip",
 	Assume: []string{"fu.Repr is the printer used by eval output, the shell and //str.repr", "parse errors are detected by type only (rendering a wbnf parse error can take exponential time: recorded under C10)"},
 }
